@@ -52,6 +52,15 @@ def case(args):
     seed, i = args
     rng = random.Random(seed * 104729 + i)
     sp, recs = build(rng, i)
+    if i % 3 == 2:
+        # a partially completed workflow that is resumed: outputs of some non-first input sets already exist, so their
+        # tasks are skipped at once while earlier tasks are still running
+        base = t3.run_model(sp.text())
+        tasks = [t for t in base["tasks"] if t["proc"] == "p1"]
+        for t in tasks[1:]:
+            if rng.random() < 0.6:
+                for port, st, path in t["outs"]:
+                    sp.files[path] = "ALREADY-THERE %s\n" % path
     ys = (rng.randint(1, 10**6), 300) if rng.random() < 0.3 else None
     r = t3.success_case(sp, yield_seed=ys, extra_check=order_check(recs))
     # completion order really was different from creation order?
